@@ -17,7 +17,7 @@ type c05Case struct {
 
 var c05Lexemes = []string{
 	"a", " ", "\n", "\\", "{", "}", "{{", "}}", "-", "--", "{{--", "--}}", "@", "@if", "@en", "@end",
-	"\r\n", "\\\\", "@i", "@else", "@elseif", "@each", "@slot", "@dum", "@dump", "@breakI", "(", ")", "é", "\xff", "@END", "@If", "@Else", "@EACH(", "i", "I", "f",
+	"\r\n", "\\\\", "@i", "@else", "@elseif", "@each", "@slot", "@dum", "@dump", "@breakI", "(", ")", "é", "\xff", "@END", "@If", "@Else", "@EACH(", "i", "I", "f", "\x00",
 }
 
 var c05Structural = []string{"a", "\\", "{", "}", "{{", "}}", "-", "--", "{{--", "--}}", "@", "@if", "@en", "\n"}
@@ -87,9 +87,6 @@ func c05Scan(s string, active map[int]c05Piece) (out string, defined bool) {
 	i := 0
 	for i < len(s) {
 		c := s[i]
-		if c == 0 {
-			return "", false
-		}
 		if c == '{' && strings.HasPrefix(s[i:], "{{") {
 			if i > 0 && s[i-1] == '\\' {
 				// escaped: the backslash (already copied) is removed, the braces are literal
@@ -295,7 +292,7 @@ func init() {
 			}
 			return map[string]any{"lexemes": len(c05Lexemes), "len_full": 4, "len_structural": 6, "len_spliced": 3, "structural_lexemes": len(c05Structural)}
 		},
-		Assume: []string{"the degenerate comment {{--}} and the NUL byte are outside the alphabet's defined domain"},
+		Assume: []string{"the degenerate comment {{--}} is outside the defined domain"},
 		Run:    c05Run,
 	}
 	registerTyped(p, c05Check)
